@@ -17,5 +17,5 @@ CONSTANTS
   DagChoices <- ChainFork
   BootAnywhere = TRUE
 VIEW RView
-INVARIANTS TypeOK RTypeOK E03a E03b E03c E03d E03e
+INVARIANTS TypeOK RTypeOK I_E03a I_E03b I_E03c I_E03d I_E03e PanicOnlyByAbort
 CHECK_DEADLOCK FALSE
